@@ -210,19 +210,20 @@ def gen_call_history(rng, fn=None, form=None):
     else:
         pool = STEPS + STEPS + EXTRA_STEPS
     s1 = rng.choice(pool)
-    s2 = rng.choice([s for s in pool if s != s1])
+    # the other step within a factor 5 (a series laid out on a 10 mm grid crosses 600 000 levels of a 0.001 mm grid)
+    s2 = rng.choice([s for s in pool if s != s1 and 0.2 <= s / s1 <= 5.0] or [s1 * 2.0, s1 * 0.5])
     nser = 1 if fn == 'regrid' else rng.randrange(1, 5)
     series = []
     for _ in range(nser):
         if form == 'f32':
             s = gen_exact_series(rng, 'f32', min(s1, s2))
         elif form in ('int', 'int32'):
-            s = gen_exact_series(rng, 'int', s1)
+            s = gen_exact_series(rng, 'int', None)
             if form == 'int32':
                 s['x'] = [float(i) for i in range(len(s['x']))] if max(s['x']) >= 2 ** 31 else s['x']
         else:
             cls = rng.choice(['rising', 'falling', 'nonmono', 'flat', 'onlevel', 'ulp', 'zigzag', 'twopoint', 'wide'])
-            s = gen_series(rng, cls, None, s1, nmax=9)
+            s = gen_series(rng, cls, None, rng.choice([s1, s2]), nmax=9)
         series.append(dict(x=s['x'], y=s['y']))
     pattern = rng.choice([[s1, s1], [s1, s2], [s1, s2, s1], [s1], [s1, s1, s2]])
     calls = []
